@@ -78,6 +78,35 @@ func (g *G) feeToken(v *view, msgs []script.Msg) string {
 		}
 		fee[d].Add(fee[d], big.NewInt(by))
 	}
+	// storage purchases with counts near 2^64: now and then pay what a check pays that adds the counts in uint64
+	// (or multiplies them as int64) — the sum of the counts modulo 2^64
+	{
+		two64 := new(big.Int).Lsh(big.NewInt(1), 64)
+		for _, mod := range []string{"wrk", "bcn"} {
+			sum, huge := new(big.Int), false
+			rv := &v.wrk
+			if mod == "bcn" {
+				rv = &v.bcn
+			}
+			for _, m := range msgs {
+				if m.Kind == mod+".buy" && len(m.Args) > 1 {
+					if n, ok := new(big.Int).SetString(m.Args[1], 10); ok {
+						sum.Add(sum, n)
+						huge = huge || n.BitLen() >= 63
+					}
+				}
+			}
+			if huge && rv.denom != "" && g.chance(50) {
+				sum.Mod(sum, two64)
+				sum.Mul(sum, new(big.Int).SetUint64(rv.buy))
+				g.st.MsgsPerTx["fee-for-wrapped-count"]++
+				if sum.Sign() == 0 {
+					return "-"
+				}
+				return sum.String() + rv.denom
+			}
+		}
+	}
 	// several fee-bearing operations: now and then pay for a proper subset of them only (the last, the first, a
 	// random subset) — an admission check that prices only some of the operations admits exactly these
 	var bearing []script.Msg
@@ -279,7 +308,11 @@ func (g *G) bulkBuy(v *view, kind string) (script.Tx, bool) {
 		return script.Tx{}, false
 	}
 	var msgs []script.Msg
-	for n := 2 + g.rng.Intn(3); n > 0; n-- {
+	if g.chance(15) { // two purchases for one registration whose counts add up to a small number modulo 2^64
+		pair := [][2]uint64{{maxU64, 2}, {maxU64 - 1, 3}, {1 << 63, (1 << 63) + 1}, {2, maxU64}}[g.rng.Intn(4)]
+		msgs = append(msgs, script.M(kind, u(first.id), u(pair[0]), A(first.owner)), script.M(kind, u(first.id), u(pair[1]), A(first.owner)))
+	}
+	for n := 2 + g.rng.Intn(3); n > 0 && len(msgs) == 0; n-- {
 		id, room := g.unknownID(rv.next), rv.max
 		if g.chance(60) {
 			it := rv.items[g.rng.Intn(len(rv.items))]
@@ -292,11 +325,13 @@ func (g *G) bulkBuy(v *view, kind string) (script.Tx, bool) {
 			}
 		}
 		num := uint64(1 + g.rng.Intn(3))
-		switch g.rng.Intn(4) {
+		switch g.rng.Intn(6) {
 		case 0:
 			num = room + 1
 		case 1:
 			num = rv.max + 1 + uint64(g.rng.Intn(3))
+		case 2: // counts whose uint64 sum wraps to something small, or that turn negative as int64
+			num = []uint64{maxU64, maxU64 - 1, 1 << 63, (1 << 63) + 1}[g.rng.Intn(4)]
 		}
 		msgs = append(msgs, script.M(kind, id, u(num), A(first.owner)))
 	}
@@ -332,7 +367,7 @@ func (g *G) govMsg(v *view) script.Msg {
 		for _, i := range g.rng.Perm(minInt(g.n, 6))[:n] {
 			signers = append(signers, g.acct(i))
 		}
-		min, limit := u(uint64(1+g.rng.Intn(n))), g.pick("30", "30", "5", "1", "100000")
+		min, limit := u(uint64(1+g.rng.Intn(n))), g.pick("30", "30", "5", "1", "100000", "10000000000", "9223372036854775808", "18446744073709551615")
 		if g.w.quorum {
 			limit = g.pick("100000", "100000", "30")
 		}
